@@ -8,14 +8,21 @@
   Scope, stated once: these are theorems about the model fragment
     * format codes `General`, `@`, and the grammar `(#,##)? 0 (. 0+)? %?`;
     * numbers given by their decimal text `-?D*(.D*)?` (what `f64::to_string` prints).
-  The clause "formatting never panics for any built-in format code" is NOT proved (regex / chrono
-  dispatch is not modelled); it is explored by the harness only and labelled partial.
+  The clause "formatting never panics for any built-in format code" is proved for a fragment only
+  (section "date / time built-in codes" at the end): the one panic that was known — the date conversion
+  overflowing chrono's range, repaired by fix d30eec7 — is modelled with chrono's bounds, and the
+  formatter is proved to return a text for every value under the 11 built-in date/time codes whose
+  dispatch the model covers (ids 14–22, 30, 45: no quoted literal, no `[..]` prefix).  For the other
+  built-in codes the regex / chrono dispatch is not modelled; they are explored by the harness only
+  and labelled partial.
 
   Sign rule (chosen, applied alike in the fix, the model, the spec `render` and the harness oracle):
   the output starts with `-` exactly when the number's decimal text does — also when the rounded
   magnitude is zero (`-0.001` under `0.00` is `-0.00`, as Excel shows it; `-0` stays `-0`, as under General).
 -/
 import Umya.Lemmas.NumFmt
+import Umya.Lemmas.DateFmt
+import Umya.Model.Gen.Tables
 namespace Umya.Thm.C19
 open Umya.NumFmt Umya.Spec Umya.Dec
 
@@ -159,5 +166,97 @@ theorem C19_general_cell (t fmt : List Char) :
   simp [cellFormattedValue, formatNumber]
 
 example : cellFormattedValue (.text "1.50".toList) "0.0".toList = some "1.50".toList := by decide
+
+/-! ### date / time built-in codes (after fix d30eec7) -/
+
+section DateCodes
+open Umya.Date Umya.Lemmas.DateFmt
+
+/-- the built-in date/time codes — entries of the table regenerated from `numbering_format.rs` on every
+    run — whose dispatch the model covers (`strftimeOf` answers): no quoted literal, no `[..]` prefix -/
+def builtinDateCodes : List (Nat × List Char) :=
+  (Umya.Gen.builtin_format_codes.map (fun p => (p.1, p.2.toList))).filter (fun p => (strftimeOf p.2).isSome)
+
+/-- which they are -/
+theorem C19_date_codes_covered :
+    builtinDateCodes.map (·.1) = [14, 15, 16, 17, 18, 19, 20, 21, 22, 30, 45] := by decide
+
+/-- Where the checked conversion returns a date-time it is the one the unguarded sum gives (the function
+    the C18 theorems are about), and it lies inside chrono's range; for every float model `F`, every value. -/
+theorem C19_date_checked_agrees {F : Type} [FloatOps F] (ts : F) (t : Int)
+    (h : excelToEpochSecondsChecked ts = some t) :
+    t = excelToEpochSeconds ts ∧ chronoMinSec ≤ t ∧ t ≤ chronoMaxSec :=
+  checked_agrees ts t h
+
+example : excelToEpochSecondsChecked (F := Fix) ⟨86400 * 45435 + 3600⟩ = some 1716426000 := by decide
+example : (chronoMinSec, chronoMaxSec) = (-8334601228800, 8210266876799) := by decide
+
+/-- **No panic, a text for every value.**  For every built-in date/time code the model covers (ids 14–22,
+    30, 45 of the regenerated table), every float model `F` (the driver runs `Float`, the C18 theorems `Rat` /
+    `Fix`), EVERY value `ts : F` — finite or not, any magnitude, any sign — and every General text `g` of that
+    value, the repaired `format_as_date` returns a text: chrono's rendering where the serial is a date chrono
+    can hold, the number's General text otherwise (`C19_date_out_of_range` below).  The model's formatter has
+    no panic outcome left: its only partial step is the checked conversion, and `none` there is handled; the
+    public `excel_to_date_time_object` still panics there (`excelToDateTimeObject`, example below).
+    Covered: `DATE_FORMAT_REPLACEMENTS*` (regenerated, `C19_date_tables_match_source`), the conversion with
+    chrono's `TimeDelta` / `NaiveDateTime` bounds, chrono's rendering of the specifiers that can arise, for
+    every year of chrono's range.  Not covered: the regex stages (identity on these codes; tied by the
+    harness), the other built-in codes. -/
+theorem C19_date_no_panic {F : Type} [FloatOps F] (p : Nat × List Char) (hp : p ∈ builtinDateCodes)
+    (g : List Char) (ts : F) :
+    ∃ s, formatAsDateChecked p.2 g ts = some s := by
+  have hall : builtinDateCodes.all (fun p =>
+      match strftimeOf p.2 with
+      | some sf => sfOk sf (sf.length + 1)
+      | none => false) = true := by decide
+  have h := List.all_eq_true.mp hall p hp
+  unfold formatAsDateChecked
+  cases hsf : strftimeOf p.2 with
+  | none => rw [hsf] at h; cases h
+  | some sf =>
+    rw [hsf] at h
+    simp only []
+    cases hc : excelToEpochSecondsChecked ts with
+    | none => exact ⟨_, rfl⟩
+    | some t =>
+      obtain ⟨s, hs⟩ := strftime_some (ofEpochSeconds t) (ofEpochSeconds_month t) sf _ h
+      exact ⟨trimBlanks s, by simp [hs]⟩
+
+/-- non-vacuity, and the three regimes: an ordinary date, a serial beyond chrono's years (was a panic),
+    a huge negative one -/
+example : (14, "m/d/yyyy".toList) ∈ builtinDateCodes := by decide
+example : formatAsDateChecked (F := Fix) "m/d/yyyy".toList "45435".toList ⟨86400 * 45435⟩
+    = some "5/23/2024".toList := by decide +kernel
+example : formatAsDateChecked (F := Fix) "m/d/yyyy h:mm".toList "100000000".toList ⟨86400 * 100000000⟩
+    = some "100000000".toList := by decide +kernel
+example : formatAsDateChecked (F := Fix) "h:mm:ss AM/PM".toList "-100000000000000000000".toList ⟨-86400 * 10 ^ 20⟩
+    = some "-100000000000000000000".toList := by decide +kernel
+/-- a serial inside chrono's range but beyond year 9999 is rendered by chrono with a sign -/
+example : formatAsDateChecked (F := Fix) "m/d/yyyy".toList "5000000".toList ⟨86400 * 5000000⟩
+    = some "7/13/+15589".toList := by decide +kernel
+
+/-- **Out of range = the plain number.**  Where the checked conversion fails, every modelled date format
+    shows the General text of the number (trimmed, as `to_formatted_string` does with every result). -/
+theorem C19_date_out_of_range {F : Type} [FloatOps F] (f sf g : List Char) (ts : F)
+    (hf : strftimeOf f = some sf) (h : excelToEpochSecondsChecked ts = none) :
+    formatAsDateChecked f g ts = some (trimBlanks g) := by
+  simp [formatAsDateChecked, hf, h]
+
+example : strftimeOf "d-mmm-yy".toList = some "%-d-%b-%y".toList ∧
+    excelToEpochSecondsChecked (F := Fix) ⟨86400 * 95051806⟩ = none ∧
+    excelToEpochSecondsChecked (F := Fix) ⟨86400 * 95051805⟩ = some (chronoMaxSec - 86399) := by decide
+
+/-- the public `excel_to_date_time_object` (now `…_checked(..).expect(..)`) still panics there -/
+example : excelToDateTimeObject (F := Fix) ⟨86400 * 100000000⟩ = none ∧
+    (excelToDateTimeObject (F := Fix) ⟨86400 * 45435⟩).map (fun d => (d.year, d.month, d.day)) = some (2024, 5, 23) := by
+  decide
+
+/-- the replacement tables of the model are the ones in `date_formater.rs` (regenerated on every run) -/
+theorem C19_date_tables_match_source :
+    Umya.Gen.date_format_replacements = dateReplacements ∧
+    Umya.Gen.date_format_replacements_24 = dateReplacements24 ∧
+    Umya.Gen.date_format_replacements_12 = dateReplacements12 := by decide
+
+end DateCodes
 
 end Umya.Thm.C19
